@@ -20,14 +20,14 @@ from .common import Check, sx, parse_sx, forbidden_scan, PY, VERIF, REPO
 TRUSTED = [
     "Coq 8.16.1 kernel (coqc); vm_compute only in Examples and _refuted witnesses",
     "Print Assumptions: all C04 theorems closed under the global context (no axioms)",
-    "translator harness/c04.py:generate (Python ast): _compiled_args re-check at the three compiled call sites, __setitem__ clearing the compiled cache, clone-before-write in eval_dyad_amend / _e_dyad_amend_in_depth",
+    "translator harness/c04.py:generate (Python ast): _compiled_args re-check at the three compiled call sites, the (text, module) parse-cache key and the guard that keeps module-switching texts out of the parse cache, __setitem__ clearing the compiled cache, clone-before-write in eval_dyad_amend / _e_dyad_amend_in_depth",
     "extraction: ExtrOcamlBasic only; Z kept as inductive; ocaml/driver.ml",
     "harness/c04.py: statement generators, to_expr (real syntax tree -> model expression), harness/canon.py",
 ]
 ASSUME = [
-    "Part A models __call__/eval caching over integer, string and integer-list values with the verbs * - # and assignment; NumPy ufunc vs Python operator behaviour on that fragment is modelled (arith / py_bin) and sampled by the correspondence; other texts (functions, adverbs, joins) are covered by the A/B experiment only",
+    "Part A models __call__/eval caching over integer, string and integer-list values with the verbs * - #, the reduce +/ and assignment; NumPy ufunc vs Python operator behaviour on that fragment is modelled (arith / py_bin) and sampled by the correspondence; other texts (functions, adverbs, joins) are covered by the A/B experiment only",
     "Part B models rank-1 integer arrays with drop / take / reverse views and amend; index-by-list, amend-in-depth, rank-2 rows and strings are covered by the A/B experiment only",
-    "the parser is a function of the text (C12); module switches are not exercised (the parse cache key's module component is not modelled)",
+    "the parser is a function of the text and the active module (C12); module sequences are covered by the A/B experiment, the translator flags and the theorems, not by a three-way comparison with the extracted model",
     "dictionaries and tables are shared objects by design and are not part of the statement grammar",
 ]
 
@@ -135,6 +135,22 @@ def generate():
         return True
     fl, why = astlib.try_flag(parse_key)
     out.append("Definition parse_cache_key_has_module : bool := %s.%s" % (astlib.coq_bool(bool(fl)), "" if why is None else "  (* %s *)" % why))
+
+    def skips_switching():
+        m = astlib.module("klongpy/interpreter.py")
+        cls = astlib.find_class(m, "KlongInterpreter")
+        fn = astlib.find_func(cls, "__call__")
+        stores = []
+        for n in ast.walk(fn):
+            if isinstance(n, ast.If):
+                for st in n.body:
+                    if isinstance(st, ast.Assign) and ast.unparse(st.targets[0]) == "self._parse_cache[cache_key]":
+                        stores.append(ast.unparse(n.test))
+        all_stores = [n for n in ast.walk(fn) if isinstance(n, ast.Assign) and ast.unparse(n.targets[0]).startswith("self._parse_cache[")]
+        # the only store is guarded by "the parse left the active module as it found it"
+        return len(all_stores) == 1 and stores == ["self._module == cache_key[1]"]
+    fl, why = astlib.try_flag(skips_switching)
+    out.append("Definition parse_cache_skips_switching_texts : bool := %s.%s" % (astlib.coq_bool(bool(fl)), "" if why is None else "  (* %s *)" % why))
     return "\n".join(out) + "\n"
 
 
@@ -173,6 +189,12 @@ def to_expr(v):
                 return ["d", NAMES[str(v.args[0])], to_expr(v.args[1])]
         if ar == 1 and op == '#' and type(v.args) is not list:
             return ["z", to_expr(v.args)]
+    if isinstance(v, KGFn) and v.is_adverb_chain() and len(v.a) == 3:
+        from klongpy.core import KGOp, KGAdverb
+        verb, adv, arg = v.a
+        if isinstance(verb, KGAdverb) and isinstance(verb.a, KGOp) and verb.a.a == '+' and isinstance(adv, KGAdverb) and adv.a == '/' \
+                and not isinstance(arg, list):
+            return ["r", to_expr(arg)]
     raise Unsupported(type(v).__name__)
 
 
@@ -238,11 +260,13 @@ def load_copy(A):
     # the active module; no parse cache, no compiled cache, no compilations on copied function bodies
     B = KlongInterpreter()
     frames = []
-    for d in user_frames(A):
+    # ONE deepcopy over all scopes: sharing between variables (two names for one dictionary) is part of the state
+    copied = copy.deepcopy([list(d.items()) for d in user_frames(A)])
+    seen = set()
+    for d, items in zip(user_frames(A), copied):
         nd = KGModule(d.name) if isinstance(d, KGModule) else {}
-        for key, val in d.items():
-            v2 = copy.deepcopy(val)
-            strip_memo(v2, set())
+        for key, v2 in items:
+            strip_memo(v2, seen)
             nd[key] = v2
         frames.append(nd)
     sysf = list(B._context._context)[-2:]
@@ -348,7 +372,11 @@ POOL_OBJ = ['m::[["p" "q"] ["r" "s"]]', 'm::[[1 "x"] [2 "y"] [3 "w"]]', 'c::1_m'
 POOL_RED = ['avg::{(+/x)%#x}', 'avg([1 2 3])', 'avg([])', 'avg(a)', 'sm::{,+/a}', 'sm()', 'q::{1,*/x}', 'q([2 3])', 'q([])', 'q(a)',
             'a::[]', 'a::[1 2 3]', 'a::[7 8]', 'a::2_a', 'w::{0+/x}', 'ff::{(w(x)),+/x}', 'ff([1 2])', 'ff([])', 'mx::{,|/x}', 'mx([3 1 2])',
             'mx([])', 'sc::{#+\\x}', 'sc([1 2])', 'sc([])', 'mn::{1,&/a}', 'mn()']
-POOLS = [POOL_DATA, POOL_VIEW, POOL_AMEND, POOL_FN, POOL_EXPR, POOL_OBJ, POOL_RED]
+# dictionary literals: every evaluation of the literal makes a fresh dictionary (T4.dictlit); dictionaries themselves
+# are shared objects (two names, one object) and are updated in place
+POOL_DICT = ['f3::{:{[1 2]}}', 'dd::f3()', 'dd,[3 4]', 'f3()', 'dd', 'ee::dd', 'dd,[5 6]', 'ee', 'e2:::{[7 8]}', 'e2,[9 0]', ':{[7 8]}',
+             'e2', 'g3::{[t];t:::{[1 1]};t,[x x];t}', 'g3(2)', 'g3(3)', 'dd?1', 'ee?5']
+POOLS = [POOL_DATA, POOL_VIEW, POOL_AMEND, POOL_FN, POOL_EXPR, POOL_OBJ, POOL_RED, POOL_DICT]
 
 DIRECTED = [
     ['f::{1,x*y}', 'f(2;3)', 'f("ab";3)'],
@@ -369,6 +397,9 @@ DIRECTED = [
     ['m::[["p" "q"] ["r" "s"]]', 'd::m:-"z",[0 1]', 'm', 'c::1_m', 'd::c:-:foo,[0 0]', 'm', 'c'],
     ['lit::{[["a" "b"] ["c" "d"]]}', 'd::lit():-"z",[0 1]', 'lit()', 'd::[["a" "b"] ["c" "d"]]:-"z",[1 1]', 'd::[["a" "b"] ["c" "d"]]:-"z",[1 1]'],
     ['.module(:m1)', 't::0', 't::t+1', '.module(0)', 't::10', 't::t+1', 't'],
+    ['.module(:m1)', 't::0', 't*2', '.module(0)', '.module(:m2)', 't*2', 't::7', 't*2', '.module(0)', 't*2'],
+    ['f3::{:{[1 2]}}', 'dd::f3()', 'dd,[3 4]', 'f3()', ':{[7 8]}', 'e2:::{[7 8]}', 'e2,[9 0]', ':{[7 8]}', 'e2:::{[7 8]}', 'e2'],
+    ['.module(:m1)', 't::1', '.module(0)', 't::10', '.module(:m1)', 't::5', 't', '.module(0)', 't', '.module(:m1)', 't'],
 ]
 
 
@@ -395,27 +426,28 @@ MOD_TEXTS = ['t::t+1', 't', 'u::t*2', 't::5', 't*2', 'w::{t+x}', 'w(1)', 'u', 't
 
 def gen_module_sequences(rng, tier):
     """byte-identical texts evaluated under different active modules with differing module / global bindings.
-    Every module switch gets its own spelling (trailing blanks), which keeps the sequences outside the known
-    finding C04-cached-module-switch."""
+    Module switches are spelled identically or with trailing blanks (repeated identical `.module(:m)` texts were
+    the finding C04-cached-module-switch, repaired by 012f393)."""
     n = 120 if tier == "quick" else 1500
     for _ in range(n):
-        sp = iter(range(1, 50))
+        sp = iter([0] * 50) if rng.random() < 0.6 else iter(range(1, 50))
         texts = rng.sample(MOD_TEXTS, rng.randint(2, 4))
         seq = []
         if rng.random() < 0.4:
             seq += ['t::%d' % rng.randint(20, 29)] + [rng.choice(texts)]
         seq += ['.module(:m1)' + " " * next(sp), 't::0'] + [rng.choice(texts) for _ in range(rng.randint(1, 3))]
-        seq += ['.module(0)' + " " * next(sp), 't::10'] + [rng.choice(texts) for _ in range(rng.randint(1, 3))]
+        seq += ['.module(0)' + " " * next(sp)] + (['t::10'] if rng.random() < 0.6 else []) + [rng.choice(texts) for _ in range(rng.randint(1, 3))]
         if rng.random() < 0.5:
-            seq += ['.module(:m2)' + " " * next(sp), 't::7'] + [rng.choice(texts) for _ in range(rng.randint(1, 2))]
+            seq += ['.module(:m2)' + " " * next(sp)] + (['t::7'] if rng.random() < 0.5 else []) + [rng.choice(texts) for _ in range(rng.randint(1, 2))]
             seq += ['.module(0)' + " " * next(sp)] + [rng.choice(texts) for _ in range(rng.randint(1, 2))]
         yield seq, "modules"
 
 
 def gen_cache_sequences(rng, tier):
     """Part A grammar: rebinding a, b between int / string / list and re-running identical texts"""
-    binds = ['a::2', 'a::"ab"', 'a::[1 2]', 'a::[]', 'a::5', 'b::3', 'b::[3 4]', 'b::"x"', 'b::2', 'a::b', 'c::a*b']
-    exprs = ['a*b', 'a-b', '#a*b', '#(a*b)-a', '(a*b)-2', '#a-b', 'c::a*b', '#(a-b)*(a*2)', 'a*(b*2)', '#b*a']
+    binds = ['a::2', 'a::"ab"', 'a::[1 2]', 'a::[]', 'a::5', 'b::3', 'b::[3 4]', 'b::"xy"', 'b::2', 'a::b', 'c::a*b', 'a::[7 8]', 'b::[]']
+    exprs = ['a*b', 'a-b', '#a*b', '#(a*b)-a', '(a*b)-2', '#a-b', 'c::a*b', '#(a-b)*(a*2)', 'a*(b*2)', '#b*a',
+             '+/a', 'c::+/a', '(+/a)*b', '+/a*b', '#+/a', '(+/a)-+/b', 'c::(+/a)-2']
     n = 400 if tier == "quick" else 6000
     for _ in range(n):
         seq = ['a::2', 'b::3'] if rng.random() < 0.7 else [rng.choice(binds[:5]), rng.choice(binds[5:9])]
@@ -505,6 +537,8 @@ def property_oracle(chk, seq, recs, kind, bad_props):
                        and not (tgt is not None and (k[1] == tgt or k[1].startswith(tgt + "`")))]
             # an unbound symbol that evaluates to itself gets bound to itself: not a change of value
             changed = [k for k in changed if not (k not in pre and post.get(k) == sx(["y"] + [ord(c) for c in k[1]]))]
+            # dictionaries are shared objects updated in place by their documented operations
+            changed = [k for k in changed if not ((pre.get(k) or "").startswith("(d") or (post.get(k) or "").startswith("(d"))]
             if changed:
                 what = "statement %d `%s` changed variables it does not assign: %s" % (
                     i, r["text"], {str(k): (pre.get(k), post.get(k)) for k in changed})
@@ -520,8 +554,9 @@ KNOWN_SWITCH = 'C04-cached-module-switch'
 
 
 def replay_known(chk):
-    """known finding: a module-switching text served from the parse cache does not switch the parser's module.
-    Two histories that differ only in the spelling of the second `.module(:m1)` must end in the same state."""
+    """finding C04-cached-module-switch (fixed by 012f393; a VIOLATION again if it reappears): a module-switching text
+    served from the parse cache did not switch the parser's module.  Two histories that differ only in the spelling
+    of the second `.module(:m1)` must end in the same state."""
     h1 = ['.module(:m1)', 't::1', '.module(0)', 't::10', '.module(:m1)', 't::5', '.module(0) ', 't']
     h2 = ['.module(:m1)', 't::1', '.module(0)', 't::10', '.module(:m1) ', 't::5', '.module(0) ', 't']
     a, b = run_child([], final=[h1, h2])["final"]
